@@ -36,7 +36,19 @@ EXPLANATION = (
     "every path must either return super().match_args(<its own parameters in "
     "order>) or return None under a path condition that propositionally "
     "implies `not self.signature.has_param_annotations`; any other returned "
-    "value or statement kind is an analysis error); R2.4 those log methods are registered under "
+    "value or statement kind is an analysis error; "
+    "_match_args_sequentially must hand compute_matches one types.Arg(name, "
+    "argument, annotation') for every item of self.signature.iter_args(args) "
+    "- accumulator loop or comprehension alike - and may leave an item out "
+    "only under a condition that implies `<annotation> is None`; the guards "
+    "of the return / annotated-store checks are compared as propositional "
+    "formulas over roles, not spellings: _check_return runs exactly when the "
+    "frame checks returns and the local handed to it as declared type is "
+    "truthy; bad_return_type is logged exactly when <match result>.success "
+    "is false (and errors are reported); check_annotation_type_mismatch runs "
+    "under check_types unless the store is reported as a Final violation; its "
+    "early exits together imply `no annotation or no value or value is ... "
+    "or (allow_none and value is None)`); R2.4 those log methods are registered under "
     "bad-return-type / annotation-type-mismatch / wrong-arg-types; R2.5 for "
     "16 ground builtin types x 20 ABCs/Supports* protocols, the stubs make T "
     "an inhabitant of X (nominal ancestor, or structural protocol whose "
@@ -1148,6 +1160,22 @@ VARIANTS = [
     {"name": 'args-to-match-loop-stops-at-first-unannotated', "rule": "R2.3", "file": "pytype/abstract/_function_base.py", "expect": 'error',
      "old": '    for name, arg, formal in self.signature.iter_args(args):\n      if formal is None:\n        continue\n',
      "new": '    for name, arg, formal in self.signature.iter_args(args):\n      if formal is None:\n        break\n'},
+    {"name": 'twin-return-check-negated-guard', "rule": "R2.3", "expect": 'silent',
+     "edits": [('pytype/vm.py', '      if allowed_return:\n        self._check_return(state.node, var, allowed_return)\n', '      if not allowed_return:\n        pass\n      else:\n        self._check_return(state.node, var, allowed_return)\n')]},
+    {"name": 'twin-return-check-declared-type-local-renamed', "rule": "R2.3", "expect": 'silent',
+     "edits": [('pytype/vm.py', '        allowed_return = ret_type.get_formal_type_parameter(abstract_utils.V)\n      elif not self.frame.f_code.has_async_generator():\n        allowed_return = self.frame.allowed_returns\n      else:\n        allowed_return = None\n      if allowed_return:\n        self._check_return(state.node, var, allowed_return)\n', '        declared = ret_type.get_formal_type_parameter(abstract_utils.V)\n      elif not self.frame.f_code.has_async_generator():\n        declared = self.frame.allowed_returns\n      else:\n        declared = None\n      if declared:\n        self._check_return(state.node, var, declared)\n')]},
+    {"name": 'return-check-renamed-but-only-for-generators', "rule": "R2.3", "expect": 'fire',
+     "edits": [('pytype/vm.py', '        allowed_return = ret_type.get_formal_type_parameter(abstract_utils.V)\n      elif not self.frame.f_code.has_async_generator():\n        allowed_return = self.frame.allowed_returns\n      else:\n        allowed_return = None\n      if allowed_return:\n        self._check_return(state.node, var, allowed_return)\n', '        declared = ret_type.get_formal_type_parameter(abstract_utils.V)\n      elif not self.frame.f_code.has_async_generator():\n        declared = self.frame.allowed_returns\n      else:\n        declared = None\n      if declared and self.frame.f_code.has_generator():\n        self._check_return(state.node, var, declared)\n')]},
+    {"name": 'twin-check_return-early-return-on-success', "rule": "R2.3", "expect": 'silent',
+     "edits": [('pytype/tracer_vm.py', '    match_result = self.ctx.matcher(node).compute_one_match(actual, expected)\n    if not match_result.success:\n      self.ctx.errorlog.bad_return_type(\n          self.frames, node, match_result.bad_matches\n      )\n    return match_result.success', '    outcome = self.ctx.matcher(node).compute_one_match(actual, expected)\n    if outcome.success:\n      return True\n    self.ctx.errorlog.bad_return_type(\n        self.frames, node, outcome.bad_matches\n    )\n    return False')]},
+    {"name": 'check_return-early-return-inverted', "rule": "R2.3", "expect": 'fire',
+     "edits": [('pytype/tracer_vm.py', '    match_result = self.ctx.matcher(node).compute_one_match(actual, expected)\n    if not match_result.success:\n      self.ctx.errorlog.bad_return_type(\n          self.frames, node, match_result.bad_matches\n      )\n    return match_result.success', '    outcome = self.ctx.matcher(node).compute_one_match(actual, expected)\n    if not outcome.success:\n      return True\n    self.ctx.errorlog.bad_return_type(\n        self.frames, node, outcome.bad_matches\n    )\n    return False')]},
+    {"name": 'twin-apply_annotation-final-flag-renamed', "rule": "R2.3", "expect": 'silent',
+     "edits": [('pytype/vm.py', '    final_violation = False\n    local = False\n', '    violates_final = False\n    local = False\n'), ('pytype/vm.py', '      final_violation = (\n          name in annotations_dict', '      violates_final = (\n          name in annotations_dict'), ('pytype/vm.py', '      if final_violation:\n        self.ctx.errorlog.assigning_to_final(self.frames, name, local)\n      else:\n', '      if violates_final:\n        self.ctx.errorlog.assigning_to_final(self.frames, name, local)\n      else:\n')]},
+    {"name": 'twin-mismatch-early-exits-regrouped', "rule": "R2.3", "expect": 'silent',
+     "edits": [('pytype/context.py', '    if not typ or not value:\n      return\n    if (\n        value.data == [self.convert.ellipsis]\n        or allow_none\n        and value.data == [self.convert.none]\n    ):\n      return\n', '    if not (typ and value):\n      return\n    if value.data == [self.convert.ellipsis]:\n      return\n    if allow_none and value.data == [self.convert.none]:\n      return\n')]},
+    {"name": 'mismatch-early-exit-when-none-not-allowed', "rule": "R2.3", "expect": 'fire',
+     "edits": [('pytype/context.py', '    if not typ or not value:\n      return\n', '    if not typ or not value or not allow_none:\n      return\n')]},
     {"name": "wrong-arg-types-renamed", "rule": "R2.4", "file": "pytype/errors/errors.py", "expect": "fire",
      "old": '  @_error_name("wrong-arg-types")\n  def _wrong_arg_types(', "new": '  @_error_name("wrong-arg-count")\n  def _wrong_arg_types('},
     {"name": "revert-D15-dict-hashable", "rule": "R2.5", "file": stubs.TYPING, "expect": "fire",
